@@ -5,7 +5,7 @@ CONSTANTS
   MaxWays = 2
   MaxLen = 3
   ClosedLens = {}
-  Ws = {1, 2}
+  Ws = {1, 3}
   Kinds = {"res", "one", "foot"}
   Limits = {2, 4}
   Profiles = {"car"}
